@@ -676,6 +676,23 @@ func (x *ckExec) net(op ckOp) {
 func (x *ckExec) save(op ckOp) {
 	sv := &save.Chunk{XPos: 3, ZPos: -2, YPos: int32(op.YPos)}
 	var terr, ferr error
+	if x.rng.Intn(2) == 0 {
+		// a destination that was used before: another chunk (own blocks, six other height maps, another status) was
+		// converted into it first; nothing of that may show in the save form of x.c
+		other := x.ckDest()
+		for _, hm := range []*level.BitStorage{other.HeightMaps.WorldSurfaceWG, other.HeightMaps.WorldSurface, other.HeightMaps.OceanFloorWG,
+			other.HeightMaps.OceanFloor, other.HeightMaps.MotionBlocking, other.HeightMaps.MotionBlockingNoLeaves} {
+			if hm != nil {
+				for i := 0; i < 256; i += 1 + x.rng.Intn(5) {
+					hm.Set(i, 1+x.rng.Intn(15))
+				}
+			}
+		}
+		other.Status = level.StatusEmpty
+		if p, _ := catch(func() { _ = level.ChunkToSave(other, sv) }); p {
+			sv = &save.Chunk{XPos: 3, ZPos: -2, YPos: int32(op.YPos)}
+		}
+	}
 	if p, _ := catch(func() { terr = level.ChunkToSave(x.c, sv) }); p {
 		terr = errors.New("panic")
 	}
